@@ -1,11 +1,12 @@
 """C15 - one stalled peer cannot block other peers."""
 PID = "C15"
-RULE = ("server endpoint kinds reachable by a raw TCP peer (socket, StartTLS socket, TLS socket listener, websocket) x stall points {after "
-        "connect, inside the first request line, between the two requests, inside a TLS hello, garbage, none} x 2..3 well-behaved clients "
-        "arriving meanwhile, each over its own physical session, each bounded by 3 s")
+RULE = ("server endpoint kinds reachable by a raw peer (socket, StartTLS socket, TLS socket, websocket, TLS websocket, KCP, KCP+StartTLS) x stall "
+        "points {after connect, inside the first request line, between the two requests, inside a TLS hello / record header, garbage, none} x 2..3 "
+        "well-behaved clients arriving meanwhile, each over its own physical session, each bounded by 3 s; plus the variant in which the "
+        "stalled peer's handshake reaches its own time limit first")
 EXPLANATION = ("Props/C15.v: the accept-loop model one level up (listener loop, handshake inline or spawned - read from the source for the socket "
                "and packet servers; net/http spawns per request). The scenarios stall a raw peer and require other clients to be served.")
-TRUSTED = ["net/http's goroutine per request (websocket endpoints)", "the packet (KCP) and DNS endpoints cannot be stalled by a raw TCP peer in this harness; their loops are covered by the translator's shape fact only"]
+TRUSTED = ["net/http's goroutine per request (websocket endpoints)", "the DNS endpoint is covered by the translator's shape fact and the model only (a DNS peer has no connection to stall)"]
 RUN_TIMEOUT = 3000
 
 
@@ -20,6 +21,19 @@ def cases(tier, rng):
             n = 3 if tier == "thorough" else 2
             line = "c15 %s %s %d" % (c, st, n)
             cs.append({"line": line, "key": line if st != "none" else None, "tags": {"carrier": c, "stall": st}})
+    n = 3 if tier == "thorough" else 2
+    # endpoints that speak TLS from the first octet, and the packet (KCP) endpoint, with a raw peer of the matching kind
+    for c, stalls in (("tcp+tls", ("connect", "tlspartial", "garbage")), ("wss", ("connect", "tlspartial")), ("kcp", ("halfline", "between", "garbage")),
+                      ("kcp-starttls", ("tlshello",))):
+        for st in stalls:
+            line = "c15 %s %s %d" % (c, st, n)
+            cs.append({"line": line, "key": line, "tags": {"carrier": c, "stall": st}})
+    # the stalled peer's own handshake runs into its time limit (1.5 s here) before the others arrive: they must still be served
+    for c, st in (("tcp", "connect"), ("tcp-starttls", "tlshello"), ("tcp+tls", "connect"), ("kcp", "halfline"), ("kcp-starttls", "between"), ("ws", "connect")):
+        if tier != "thorough" and c in ("ws", "kcp-starttls"):
+            continue
+        line = "c15 %s %s %d 1" % (c, st, n)
+        cs.append({"line": line, "key": line, "model": False, "tags": {"carrier": c, "stall": st + "+expired"}})
     return cs
 
 
